@@ -20,7 +20,10 @@ namespace Oslo.File
 
 abbrev Bytes := List UInt8
 
-/-- exceptions the modelled functions can let escape -/
+/-- exceptions the modelled functions can let escape.  An OSError is represented by the value of
+    its `errno` attribute at the time it is raised and by nothing else: the code filters with
+    `e.errno == errno.X` (fileutils.py:46, 63, 157), so the concrete class (FileNotFoundError, a
+    user subclass, the IOError alias, …) and the way the errno got there do not enter the model. -/
 inductive Exc
   | osError (errno : Option Int)   -- OSError or any subclass; `errno` may be None
   | valueError
@@ -190,6 +193,18 @@ def writeToTempfile (content : Bytes) (pathTruthy : Bool)
       match write with                                              -- lines 105-108
       | .error e => ⟨.error e, pathTruthy, some [], true⟩           -- finally: os.close(fd)
       | .ok n => ⟨.ok (), pathTruthy, some (content.take n), true⟩  -- line 109; count ignored
+
+/-- one call of a session: the arguments and what the three OS-level calls do at that moment -/
+structure TempCall where
+  content : Bytes
+  pathTruthy : Bool
+  ensure : Except Exc Unit
+  mkstemp : Except Exc Unit
+  write : Except Exc Nat
+
+/-- any number of calls in one process: the function keeps no state between calls -/
+def tempSession (calls : List TempCall) : List TempOut :=
+  calls.map fun c => writeToTempfile c.content c.pathTruthy c.ensure c.mkstemp c.write
 
 /-! ### a one-path file system, for the "already done" clauses (assumed OS behaviour,
     exercised against the real file system by the correspondence) -/
